@@ -636,6 +636,7 @@ func c09nilCases(c *Ctx) {
 type c09call struct{ l, r, m gedcom.Node }
 
 type c09sliceRun struct {
+	nilEntries int
 	adds     string
 	obs      string
 	res      gedcom.Nodes
@@ -646,7 +647,80 @@ type c09sliceRun struct {
 	written  bool
 }
 
+// c09fnBase: "eq:typed3" -> "eq" (the name the model knows), 3 (declines with a typed nil pointer
+// of the 3rd concrete node type; -1 = declines with a literal nil).
+func c09fnBase(fn string) (string, int) {
+	if i := strings.Index(fn, ":typed"); i >= 0 {
+		k := 0
+		fmt.Sscanf(fn[i+len(":typed"):], "%d", &k)
+		return fn[:i], k
+	}
+	return fn, -1
+}
+
+func c09alwaysLike(base string) bool { return base == "always" || base == "sameptr" || base == "evenlen" }
+
+// c09typedNil: "no merge" as a user-supplied function may well say it — a nil pointer of a concrete
+// node type stored in the interface (not == nil, but IsNil).
+func c09typedNil(k int) gedcom.Node {
+	switch k % 6 {
+	case 0:
+		return (*gedcom.SimpleNode)(nil)
+	case 1:
+		return (*gedcom.IndividualNode)(nil)
+	case 2:
+		return (*gedcom.BirthNode)(nil)
+	case 3:
+		return (*gedcom.DateNode)(nil)
+	case 4:
+		return (*gedcom.FamilyNode)(nil)
+	}
+	return (*gedcom.NameNode)(nil)
+}
+
 func c09mergeFn(fn string, calls *[]c09call) gedcom.MergeFunction {
+	base, typed := c09fnBase(fn)
+	f := c09mergeFnBase(base, calls)
+	if typed < 0 {
+		return f
+	}
+	return func(l, r gedcom.Node, d *gedcom.Document) gedcom.Node {
+		m := f(l, r, d)
+		if gedcom.IsNil(m) {
+			return c09typedNil(typed)
+		}
+		return m
+	}
+}
+
+func c09mergeFnBase(fn string, calls *[]c09call) gedcom.MergeFunction {
+	always := func(l, r gedcom.Node, d *gedcom.Document) gedcom.Node {
+		n := gedcom.NewNode(l.Tag(), l.Value(), l.Pointer())
+		for _, k := range l.Nodes() {
+			n.AddNode(gedcom.DeepCopy(k, d))
+		}
+		for _, k := range r.Nodes() {
+			n.AddNode(gedcom.DeepCopy(k, d))
+		}
+		*calls = append(*calls, c09call{l, r, n})
+		return n
+	}
+	switch fn {
+	case "sameptr": // merges (like "always") nodes with the same pointer, declines otherwise
+		return func(l, r gedcom.Node, d *gedcom.Document) gedcom.Node {
+			if l.Pointer() == r.Pointer() {
+				return always(l, r, d)
+			}
+			return nil
+		}
+	case "evenlen": // merges when the right node's value has an even number of bytes
+		return func(l, r gedcom.Node, d *gedcom.Document) gedcom.Node {
+			if len(r.Value())%2 == 0 {
+				return always(l, r, d)
+			}
+			return nil
+		}
+	}
 	switch fn {
 	case "eq":
 		return func(l, r gedcom.Node, d *gedcom.Document) gedcom.Node {
@@ -691,6 +765,15 @@ func c09runSlices(fn string, ls, rs gedcom.Nodes, snap *c09snap) *c09sliceRun {
 		o.obs = "panic"
 		return o
 	}
+	for _, y := range o.res {
+		if gedcom.IsNil(y) {
+			o.nilEntries++
+		}
+	}
+	if o.nilEntries > 0 {
+		o.obs = fmt.Sprintf("nil-entries=%d len=%d", o.nilEntries, len(o.res))
+		return o
+	}
 	var js []int
 	taken := map[int]bool{} // the same object may occur several times in right: first free position
 	for _, cl := range o.calls {
@@ -732,10 +815,11 @@ func c09sliceCaseA(c *Ctx, fn string, tls0, trs0 []*TNode, label string, alias [
 			all0[i] = all0[j]
 		}
 	}
-	if fn == "always" && c09needsDoc(all0) {
+	base, _ := c09fnBase(fn)
+	if c09alwaysLike(base) && c09needsDoc(all0) {
 		// the always-merge function of the harness builds its node with gedcom.NewNode, which
 		// cannot create INDI / FAM / HUSB / WIFE / CHIL
-		fn = "eq"
+		fn, base = "eq", "eq"
 	}
 	ns, ts, ok := c09realize(all0)
 	if !ok {
@@ -757,7 +841,7 @@ func c09sliceCaseA(c *Ctx, fn string, tls0, trs0 []*TNode, label string, alias [
 	rsBefore := append(gedcom.Nodes{}, rs...)
 	lsBefore := append(gedcom.Nodes{}, ls...)
 	o := c09runSlices(fn, ls, rs, snap)
-	req := "mslice " + fn + " " + encForest(tls) + " " + encForest(trs)
+	req := "mslice " + base + " " + encForest(tls) + " " + encForest(trs)
 	in := map[string]string{"case": "MergeNodeSlices/" + fn + " " + label, "left": encForest(tls), "right": encForest(trs),
 		"left_gedcom": c09text(tls...), "right_gedcom": c09text(trs...)}
 	if alias != nil {
@@ -773,6 +857,12 @@ func c09sliceCaseA(c *Ctx, fn string, tls0, trs0 []*TNode, label string, alias [
 		c.Count("mslice:" + fn + "=panic")
 		c.Nontrivial("mslice/panic/" + fn + "/" + label)
 		c.Oracle(key, "MergeNodeSlices panicked", in, o.panicked, "a slice")
+		return
+	}
+	if o.nilEntries > 0 {
+		c.Count("mslice:" + fn + "=nil-entries")
+		c.Oracle("", "the merged slice contains nil entries (a node was lost and nothing was put in its place)", in,
+			fmt.Sprintf("%d nil of %d entries", o.nilEntries, len(o.res)), "every entry is a node")
 		return
 	}
 	res, calls := o.res, o.calls
@@ -848,7 +938,7 @@ func c09sliceCaseA(c *Ctx, fn string, tls0, trs0 []*TNode, label string, alias [
 				break
 			}
 		}
-		if !ok && fn == "always" {
+		if !ok && c09alwaysLike(base) {
 			// a merged node carries the left node's tag, value and pointer and the children of
 			// both: both arguments are represented by their children (Equals of RESI / EVEN
 			// looks at the children, so the merged node need not be Equal even to the left one)
@@ -868,7 +958,7 @@ func c09sliceCaseA(c *Ctx, fn string, tls0, trs0 []*TNode, label string, alias [
 	}
 	// nothing invented
 	out := abstractNodes(res)
-	if fn == "always" {
+	if c09alwaysLike(base) {
 		// children of a merged node come from the children of both arguments: compare from depth 1
 		var inKids, outKids []*TNode
 		for _, t := range ts {
@@ -1110,6 +1200,8 @@ func init() {
 		c09aliased(c, tame, wild)
 		// deep inputs
 		c09deep(c, tame)
+		// merge functions that decline with a typed nil pointer / merge only some pairs
+		c09declining(c, tame)
 		c.Notes = append(c.Notes,
 			"INDI / FAM / HUSB / WIFE / CHIL nodes are decoded from GEDCOM text (they cannot be built with gedcom.NewNode); with them the always-merge function is replaced by the equality merge function",
 			"the destination document is observed before/after: every record the call appends (empty FAM records from document.AddFamily inside Filter) is part of the observation",
